@@ -723,12 +723,18 @@ class HostConnectionPool(object):
         log.debug("Going to open new connection to host %s", self.host)
         try:
             conn = self._session.cluster.connection_factory(self.host.endpoint, on_orphaned_stream_released=self.on_orphaned_stream_released)
-            if self._keyspace:
-                conn.set_keyspace_blocking(self._session.keyspace)
+            while True:
+                keyspace = self._keyspace
+                if keyspace:
+                    conn.set_keyspace_blocking(keyspace)
+                with self._lock:
+                    # add the connection only if the keyspace was not switched meanwhile
+                    # (see _set_keyspace_for_all_conns); otherwise select the new one first
+                    if self._keyspace == keyspace:
+                        new_connections = self._connections[:] + [conn]
+                        self._connections = new_connections
+                        break
             self._next_trash_allowed_at = time.time() + _MIN_TRASH_INTERVAL
-            with self._lock:
-                new_connections = self._connections[:] + [conn]
-                self._connections = new_connections
             log.debug("Added new connection (%s) to pool for host %s, signaling availability",
                       id(conn), self.host)
             self._signal_available_conn()
@@ -916,7 +922,12 @@ class HostConnectionPool(object):
         connections have been set, `callback` will be called with two
         arguments: this pool, and a list of any errors that occurred.
         """
-        remaining_callbacks = set(self._connections)
+        with self._lock:
+            # connections opened from now on (also when there is none at the moment) select
+            # this keyspace before they are added, see _add_conn_if_under_max
+            self._keyspace = keyspace
+            connections = self._connections
+        remaining_callbacks = set(connections)
         errors = []
 
         if not remaining_callbacks:
@@ -932,8 +943,7 @@ class HostConnectionPool(object):
             if not remaining_callbacks:
                 callback(self, errors)
 
-        self._keyspace = keyspace
-        for conn in self._connections:
+        for conn in connections:
             conn.set_keyspace_async(keyspace, connection_finished_setting_keyspace)
 
     def get_connections(self):
